@@ -104,6 +104,8 @@ type Node struct {
 	Store  *chain.DBStore
 	CM     *chain.Manager
 	Reorgs []types.ChainIndex
+	// Probe is set when the manager runs over a ProbeStore (NewProbedNode)
+	Probe *ProbeStore
 }
 
 // NewNode opens a DBStore + Manager over db (NewDBStore initialises an empty db with genesis).
